@@ -1043,7 +1043,9 @@ def generate(tier, seed):
     variants = [['setup_use'], ['setup_unused'], ['setup_unused', 'setup_use']]
     for n, (kind, p, t) in enumerate(specs):
         for k, op in enumerate(ALPHABET):
-            vs = variants if thorough else [variants[(n + k) % 3]]
+            if not thorough and (n + k) % 2:
+                continue
+            vs = variants if thorough else [variants[((n + k) // 2) % 3]]
             for setups in vs:
                 spec = _tagged_spec(kind, p, t, rng)
                 r = forced(spec, rng, setups, op)
